@@ -460,7 +460,52 @@ fn case(heavy: bool) -> impl Strategy<Value = Case> {
     (0u8..9, any::<u16>(), any::<u16>(), source(heavy)).prop_map(|(entry, off, rtype, src)| Case { entry, off, rtype, src })
 }
 
+/// fuzz entry: first 5 octets select entry point / offset / type, the rest is the input
+pub fn fuzz_one(data: &[u8]) -> CaseResult {
+    if data.len() < 5 {
+        return Ok(());
+    }
+    let c = Case {
+        entry: data[0],
+        off: u16::from_le_bytes([data[1], data[2]]),
+        rtype: u16::from_le_bytes([data[3], data[4]]),
+        src: Source::Bytes(data[5..].to_vec()),
+    };
+    let mut rec = Rec::default();
+    body(&c, &mut rec)
+}
+
+fn fuzz_seeds() -> Vec<Vec<u8>> {
+    // structured seeds: a few adversarial-family members and golden-style packets for every entry
+    let mut out = Vec::new();
+    let srcs = vec![
+        Source::PointerChain { chain: 40, refs: 20, as_records: true, label_before_chain: 1 },
+        Source::DeepLabels { labels: 127, refs: 10, label_len: 1 },
+        Source::Counts { counts: [1, 65_535, 0, 0], body: vec![0, 0, 1, 0, 1] },
+        Source::LongName { first_labels: vec![63, 63], via_pointer: true, tail_labels: vec![63, 61] },
+        Source::Rdlen { rtype: 16, rdata: vec![3, b'a', b'b', b'c'], declared: 4, trailing: 0 },
+        Source::Rdlen { rtype: 46, rdata: vec![0, 1, 13, 2, 0, 0, 0, 60, 0, 0, 0, 2, 0, 0, 0, 1, 0, 7, 0, 1, 2, 3], declared: 22, trailing: 0 },
+    ];
+    for (i, src) in srcs.iter().enumerate() {
+        let (b, _) = materialise(src);
+        for entry in [0u8, 1, 4, 6, 8] {
+            let mut v = vec![entry, (12 + i) as u8, 0, i as u8, 0];
+            v.extend_from_slice(&b);
+            out.push(v);
+        }
+    }
+    out
+}
+
 pub fn check() -> Option<Check> {
+    let fuzz: Box<dyn crate::core::Sub> = Box::new(crate::core::FuzzSub {
+        name: "fz_decode",
+        target: "fz_decode",
+        runs_thorough: 6_000_000,
+        max_len: 65_535,
+        oracle: fuzz_one,
+        seeds: fuzz_seeds,
+    });
     let light = prop_hang("decode_total", 200_000, 5_000_000, Duration::from_secs(20), |_| case(false), body);
     // 64 KB inputs, full-length pointer chains: fewer, heavier cases
     let heavy = prop_hang("decode_total_heavy", 1_500, 60_000, Duration::from_secs(20), |_| case(true), body);
@@ -473,6 +518,6 @@ pub fn check() -> Option<Check> {
             "allocation size is not examined (header counts pre-allocate; noted in DESIGN.md §10)",
             "verify_message_byte is only fed bytes that Message::from_vec accepts, as its callers do",
         ],
-        subs: vec![light, heavy],
+        subs: vec![light, heavy, fuzz],
     })
 }
